@@ -10,6 +10,15 @@
   * `agrees_with_builder`     parse (records of a well-formed structured hello, any chunking, any trailing bytes) = its view
   * `built_any_split`         … and under any TCP segmentation of that wire image
   * `alpn_of_built`, `sni_of_built`, `extensions_of_built`  the accessors agree with a reader of the structured hello
+  * `starts_table_is_function`, `starts_three_bytes_suffice`
+                              the probed starts_like_*_record table equals the source expression (transcribed from the
+                              AST) on EVERY byte string, and that expression reads three bytes only
+  * `parse_records_payload`, `payload_prefix_only`, `payload_only`, `hello_depends_only_on_payload`, `payload_incomplete`
+                              the result is a function of the hello message inside the concatenated record payload, for every
+                              record cutting, every segmentation, anything after the hello (in the payload or after the records)
+  * `validHost_of_labels`, `validHost_too_long`, `validHost_non_ascii`, `sni_outright`
+                              is_valid_host transcribed (idna fast path, 255 rule, trailing dot, split, label regex): SNI of
+                              LDH/underscore names is reported outright, independent of the idna/ipaddress library answers
   * `dtls_fragment_invariant_partial` / `_counterexample`
                               DTLS handshake fragmentation (RFC 6347 §4.2.3): full statement `DtlsFragmentInvariant`
                               is FALSE for the current code (finding F-C13a); proved for unfragmented flights only.
@@ -731,6 +740,302 @@ theorem sni_of_built (valid : Bytes → Bool) (h : BHello) (es : List BExt) (he 
     (hw : ∀ e ∈ es, e.WF) : h.view.sni valid = builtSni valid es := by
   simp only [BHello.view, Hello.sni, Hello.sniCandidates, he, viewExts]
   exact sni_view valid es hw
+
+
+
+/-! ## starts_like_*_record: the probed table IS the transcribed source expression -/
+
+private theorem starts_table_ok (dtls : Bool) :
+    startsTab dtls = [((startsPred dtls).2.1, (startsPred dtls).2.2.1,
+        (List.range 256).filter (fun c => decide ((startsPred dtls).2.2.2.1 ≤ c) && decide (c ≤ (startsPred dtls).2.2.2.2)))]
+    ∧ (startsPred dtls).1 = 2 := by
+  cases dtls <;> decide
+
+theorem starts_table_is_function (dtls : Bool) (d : Bytes) : startsLike dtls d = startsP dtls d := by
+  obtain ⟨htab, hlen⟩ := starts_table_ok dtls
+  unfold startsLike startsP
+  match d with
+  | [] => simp [hlen]
+  | [_] => simp [hlen]
+  | [_, _] => simp [hlen]
+  | a :: b :: c :: r =>
+    have hc := UInt8.toNat_lt c
+    have hmem : ((List.range 256).filter (fun c => decide ((startsPred dtls).2.2.2.1 ≤ c) && decide (c ≤ (startsPred dtls).2.2.2.2))).contains c.toNat
+        = (decide ((startsPred dtls).2.2.2.1 ≤ c.toNat) && decide (c.toNat ≤ (startsPred dtls).2.2.2.2)) := by
+      rw [Bool.eq_iff_iff, List.contains_iff_mem, List.mem_filter, List.mem_range]
+      simp only [Bool.and_eq_true, decide_eq_true_eq]
+      constructor
+      · intro h; exact h.2
+      · intro h; exact ⟨hc, h⟩
+    generalize (List.range 256).filter (fun c => decide ((startsPred dtls).2.2.2.1 ≤ c) && decide (c ≤ (startsPred dtls).2.2.2.2)) = L at htab hmem
+    rw [htab]
+    simp only [List.any_cons, List.any_nil, Bool.or_false, hlen, List.length_cons, List.getD_cons_zero,
+      List.getD_cons_succ, hmem]
+    have h1 : decide (2 < r.length + 1 + 1 + 1) = true := by simp
+    rw [h1, Bool.true_and]
+    rw [Bool.eq_iff_iff]
+    simp only [Bool.and_eq_true, beq_iff_eq, decide_eq_true_eq]
+    constructor
+    · rintro ⟨⟨h1, h2⟩, h3, h4⟩; exact ⟨⟨⟨h1.symm, h2.symm⟩, h3⟩, h4⟩
+    · rintro ⟨⟨⟨h1, h2⟩, h3⟩, h4⟩; exact ⟨⟨h1.symm, h2.symm⟩, h3, h4⟩
+
+theorem starts_three_bytes_suffice (dtls : Bool) (d : Bytes) : startsP dtls d = startsP dtls (d.take 3) := by
+  have hlen := (starts_table_ok dtls).2
+  unfold startsP
+  match d with
+  | [] => rfl
+  | [_] => rfl
+  | [_, _] => rfl
+  | a :: b :: c :: r => simp [hlen]
+
+
+/-! ## the result is a function of the concatenated handshake payload — and of nothing else -/
+
+/-- **parse_records_payload** — for ANY sequence of valid records the parser's answer is the specification
+    function `helloOf` of the concatenated record contents (incomplete payload → incomplete). -/
+theorem parse_records_payload (dtls : Bool) (chunks : List (Bytes × Bytes))
+    (hv : ∀ ch ∈ chunks, ValidChunk dtls ch) :
+    parse dtls (records chunks) = helloOf dtls (contents chunks) := by
+  unfold parse helloOf
+  rw [getHello_records dtls chunks [] hv (complete?_nil dtls), List.nil_append]
+  cases complete? dtls (contents chunks) <;> rfl
+
+/-- **payload_prefix_only** — once the payload contains the whole hello, what follows in the payload is never read -/
+theorem payload_prefix_only (dtls : Bool) (p x m : Bytes) (h : complete? dtls p = some m) :
+    complete? dtls (p ++ x) = some m := complete?_append dtls p x m h
+
+/-- **payload_only** — full strength: let the handshake payload of the records `chunks` contain a complete
+    ClientHello message `m` (read off the payload's own length field). Then for EVERY way the payload was cut into
+    (valid, non-empty) records, EVERY segmentation `segs` of the byte stream, and ANY bytes `trail` after those records
+    (further records of any type, garbage, nothing), the layer reports `helloOfMsg m` — a function of `m` alone. -/
+theorem payload_only (dtls : Bool) (chunks : List (Bytes × Bytes)) (trail m : Bytes) (segs : List Bytes)
+    (hv : ∀ ch ∈ chunks, ValidChunk dtls ch) (hm : complete? dtls (contents chunks) = some m)
+    (hsegs : segs.flatten = records chunks ++ trail) :
+    feedAll dtls [] segs = helloOfMsg dtls m := by
+  rw [seg_independent, hsegs]
+  have hp : parse dtls (records chunks) = helloOfMsg dtls m := by
+    rw [parse_records_payload dtls chunks hv]
+    unfold helloOf helloOfMsg
+    rw [hm]
+  have hne : parse dtls (records chunks) ≠ .incomplete := by
+    rw [hp]; unfold helloOfMsg; cases parseBody dtls (m.drop (msgHdrLen dtls)) <;> simp
+  rw [prefix_stable dtls (records chunks) trail hne, hp]
+
+/-- **hello_depends_only_on_payload** — two deliveries whose record payloads share a prefix `p` that contains the
+    complete hello give the same result, whatever the two record cuttings, the two segmentations, the bytes after
+    the hello inside the payload (`xa`, `xb`) and the bytes after the records (`trailA`, `trailB`). -/
+theorem hello_depends_only_on_payload (dtls : Bool) (a b : List (Bytes × Bytes))
+    (p xa xb m trailA trailB : Bytes) (segsA segsB : List Bytes)
+    (ha : ∀ ch ∈ a, ValidChunk dtls ch) (hb : ∀ ch ∈ b, ValidChunk dtls ch)
+    (hca : contents a = p ++ xa) (hcb : contents b = p ++ xb) (hm : complete? dtls p = some m)
+    (hsa : segsA.flatten = records a ++ trailA) (hsb : segsB.flatten = records b ++ trailB) :
+    feedAll dtls [] segsA = feedAll dtls [] segsB ∧ feedAll dtls [] segsA = helloOfMsg dtls m := by
+  have h1 := payload_only dtls a trailA m segsA ha (by rw [hca]; exact complete?_append dtls p xa m hm) hsa
+  have h2 := payload_only dtls b trailB m segsB hb (by rw [hcb]; exact complete?_append dtls p xb m hm) hsb
+  exact ⟨h1.trans h2.symm, h1⟩
+
+/-- **payload_incomplete** — and while the payload does not yet contain the whole hello, every cutting and every
+    segmentation of the records says "incomplete" -/
+theorem payload_incomplete (dtls : Bool) (chunks : List (Bytes × Bytes)) (segs : List Bytes)
+    (hv : ∀ ch ∈ chunks, ValidChunk dtls ch) (hm : complete? dtls (contents chunks) = none)
+    (hsegs : segs.flatten = records chunks) : feedAll dtls [] segs = .incomplete := by
+  rw [seg_independent, hsegs, parse_records_payload dtls chunks hv]
+  unfold helloOf
+  rw [hm]
+
+/-- non-vacuity of `payload_only`: a hello in two records, then an application-data record and garbage, in 3 segments -/
+example : feedAll false []
+    [ [0x16, 3, 1, 0, 2, 1, 0], [0x16, 3, 3, 0, 3, 0, 1, 0, 9, 9, 0x17, 3], [3, 0, 1, 0xff, 0xee] ]
+    = helloOfMsg false [1, 0, 0, 1, 0] :=
+  payload_only false [([0x16, 3, 1], [1, 0]), ([0x16, 3, 3], [0, 1, 0])] [9, 9, 0x17, 3, 3, 0, 1, 0xff, 0xee] [1, 0, 0, 1, 0] _
+    (by intro ch hm
+        simp only [List.mem_cons, List.mem_nil_iff, or_false] at hm
+        rcases hm with rfl | rfl <;> exact ⟨by decide, by decide, by decide, by decide⟩)
+    (by decide) (by decide)
+
+
+/-! ## is_valid_host transcribed: SNI results that do not depend on any library answer -/
+
+private theorem labelChar_facts : ∀ n : Fin 256, labelChar (UInt8.ofNat n.val) = true →
+    n.val < 128 ∧ n.val ≠ 0x2e := by decide +kernel
+
+private theorem labelChar_lt (b : UInt8) (h : labelChar b = true) : b.toNat < 128 ∧ b ≠ 0x2e := by
+  have := labelChar_facts ⟨b.toNat, UInt8.toNat_lt b⟩
+  simp only [UInt8.ofNat_toNat] at this
+  have h2 := this h
+  refine ⟨h2.1, ?_⟩
+  intro hb; subst hb; exact h2.2 rfl
+
+private theorem splitDot_nodot (l : Bytes) (h : ∀ b ∈ l, b ≠ 0x2e) : splitDot l = [l] := by
+  induction l with
+  | nil => rfl
+  | cons b r ih =>
+    have hb := h b (by simp)
+    simp only [splitDot, if_neg hb, ih (fun x hx => h x (by simp [hx]))]
+
+private theorem splitDot_append_dot (l rest : Bytes) (h : ∀ b ∈ l, b ≠ 0x2e) :
+    splitDot (l ++ 0x2e :: rest) = l :: splitDot rest := by
+  induction l with
+  | nil => simp [splitDot]
+  | cons b r ih =>
+    have hb := h b (by simp)
+    simp only [List.cons_append, splitDot, if_neg hb, ih (fun x hx => h x (by simp [hx]))]
+
+private theorem splitDot_joinDot (labels : List Bytes) (hne : labels ≠ [])
+    (h : ∀ l ∈ labels, ∀ b ∈ l, b ≠ 0x2e) : splitDot (joinDot labels) = labels := by
+  induction labels with
+  | nil => exact absurd rfl hne
+  | cons l ls ih =>
+    cases ls with
+    | nil => simp only [joinDot]; exact splitDot_nodot l (h l (by simp))
+    | cons l2 ls =>
+      simp only [joinDot]
+      rw [splitDot_append_dot l _ (h l (by simp)), ih (by simp) (fun x hx => h x (by simp [hx]))]
+
+private theorem joinDot_all (P : UInt8 → Prop) (hdot : P 0x2e) (labels : List Bytes)
+    (h : ∀ l ∈ labels, ∀ b ∈ l, P b) : ∀ b ∈ joinDot labels, P b := by
+  induction labels with
+  | nil => intro b hb; simp [joinDot] at hb
+  | cons l ls ih =>
+    cases ls with
+    | nil => simpa [joinDot] using h l (by simp)
+    | cons l2 ls =>
+      intro b hb
+      simp only [joinDot, List.mem_append, List.mem_cons] at hb
+      rcases hb with hb | hb | hb
+      · exact h l (by simp) b hb
+      · subst hb; exact hdot
+      · exact ih (fun x hx => h x (by simp [hx])) b hb
+
+private theorem joinDot_last (labels : List Bytes) (hne : labels ≠ [])
+    (h : ∀ l ∈ labels, l ≠ [] ∧ ∀ b ∈ l, b ≠ 0x2e) : (joinDot labels).getLast? ≠ some 0x2e := by
+  induction labels with
+  | nil => exact absurd rfl hne
+  | cons l ls ih =>
+    cases ls with
+    | nil =>
+      simp only [joinDot]
+      intro hl
+      have := List.mem_of_getLast? hl
+      exact (h l (by simp)).2 _ this rfl
+    | cons l2 ls =>
+      simp only [joinDot]
+      have ih' := ih (by simp) (fun x hx => h x (by simp [hx]))
+      have hne2 : joinDot (l2 :: ls) ≠ [] := by
+        have := (h l2 (by simp)).1
+        cases ls with
+        | nil => simpa [joinDot] using this
+        | cons l3 ls => simp [joinDot]
+      rw [List.getLast?_append, List.getLast?_cons]
+      cases hJ : (joinDot (l2 :: ls)).getLast? with
+      | none => exact absurd (List.getLast?_eq_none_iff.mp hJ) hne2
+      | some x =>
+        simp only [Option.getD_some]
+        intro hx
+        rw [hJ] at ih'
+        exact ih' hx
+
+
+private theorem labelValid_of_chars (l : Bytes) (hne : l ≠ []) (hlen : l.length ≤ 63)
+    (h : ∀ b ∈ l, labelChar b = true) : labelValid l = true := by
+  have htw : l.takeWhile labelChar = l := by
+    induction l with
+    | nil => rfl
+    | cons b r ih =>
+      simp only [List.takeWhile_cons, h b (by simp), if_true]
+      congr 1
+      cases r with
+      | nil => rfl
+      | cons c r' => exact ih (by simp) (by simp at hlen ⊢; omega) (fun x hx => h x (by simp [hx]))
+  unfold labelValid
+  simp only [htw, List.drop_length]
+  have : 1 ≤ l.length := by cases l with | nil => exact absurd rfl hne | cons _ _ => simp
+  simp [this, hlen]
+
+/-- **validHost_of_labels** — a name made of 1..63-character labels over `[A-Za-z0-9_-]`, at most 255 bytes long and
+    without `xn--`, is a valid host whatever the library parameters answer (they are not consulted). -/
+theorem validHost_of_labels (lib : HostLib) (labels : List Bytes) (hne : labels ≠ [])
+    (hl : ∀ l ∈ labels, l ≠ [] ∧ l.length ≤ 63 ∧ ∀ b ∈ l, labelChar b = true)
+    (hlen : (joinDot labels).length ≤ 255) (hace : isInfix acePrefix (joinDot labels) = false) :
+    validHost lib (joinDot labels) = true := by
+  have hnodot : ∀ l ∈ labels, ∀ b ∈ l, b ≠ 0x2e := fun l hm b hb => (labelChar_lt b ((hl l hm).2.2 b hb)).2
+  have hascii : (joinDot labels).all (fun b => decide (b.toNat < 128)) = true := by
+    rw [List.all_eq_true]
+    intro b hb
+    have := joinDot_all (fun b => b.toNat < 128) (by decide) labels
+      (fun l hm b hb => (labelChar_lt b ((hl l hm).2.2 b hb)).1) b hb
+    simpa using this
+  have hstrip : stripDot (joinDot labels) = joinDot labels := by
+    unfold stripDot
+    rw [if_neg (joinDot_last labels hne (fun l hm => ⟨(hl l hm).1, hnodot l hm⟩))]
+  unfold validHost idnaOk
+  rw [hace]
+  simp only [Bool.false_eq_true, if_false, hascii, Bool.true_eq_false]
+  rw [if_neg (by omega), hstrip, splitDot_joinDot labels hne hnodot]
+  have : labels.all labelValid = true := by
+    rw [List.all_eq_true]
+    intro l hm
+    exact labelValid_of_chars l (hl l hm).1 (hl l hm).2.1 (hl l hm).2.2
+  rw [this]; rfl
+
+/-- **validHost_too_long** — more than 255 bytes is never a valid host, whatever the library answers -/
+theorem validHost_too_long (lib : HostLib) (nm : Bytes) (h : 255 < nm.length) : validHost lib nm = false := by
+  unfold validHost
+  split
+  · rfl
+  · simp
+
+/-- **validHost_non_ascii** — a byte ≥ 0x80 (and no `xn--`) is never a valid host, whatever the library answers -/
+theorem validHost_non_ascii (lib : HostLib) (nm : Bytes) (b : UInt8) (hb : b ∈ nm) (h128 : 128 ≤ b.toNat)
+    (hace : isInfix acePrefix nm = false) : validHost lib nm = false := by
+  unfold validHost idnaOk
+  rw [hace]
+  have : nm.all (fun b => decide (b.toNat < 128)) = false := by
+    rw [Bool.eq_false_iff]
+    intro hall
+    rw [List.all_eq_true] at hall
+    have := hall b hb
+    simp at this
+    omega
+  simp [this]
+
+private theorem builtSni_skip (valid : Bytes → Bool) (pre post : List BExt) (e : BExt)
+    (hpre : ∀ x ∈ pre, ∀ ns, x ≠ .sni ns) : builtSni valid (pre ++ e :: post) = builtSni valid (e :: post) := by
+  induction pre with
+  | nil => rfl
+  | cons x xs ih =>
+    have hx := hpre x (by simp)
+    have ih' := ih (fun y hy => hpre y (by simp [hy]))
+    cases x with
+    | sni ns => exact absurd rfl (hx ns)
+    | alpn ps => simpa [builtSni] using ih'
+    | other t r => simpa [builtSni] using ih'
+
+/-- **sni_outright** — no parameter left: a well-formed built hello whose first server_name extension holds the single
+    host_name `joinDot labels` (labels as in `validHost_of_labels`) reports exactly that name as SNI, for every
+    behaviour of the idna / ipaddress libraries. -/
+theorem sni_outright (lib : HostLib) (h : BHello) (pre post : List BExt) (labels : List Bytes)
+    (he : h.exts = some (pre ++ .sni [(0, joinDot labels)] :: post))
+    (hw : ∀ e ∈ pre ++ .sni [(0, joinDot labels)] :: post, e.WF)
+    (hpre : ∀ x ∈ pre, ∀ ns, x ≠ .sni ns) (hne : labels ≠ [])
+    (hl : ∀ l ∈ labels, l ≠ [] ∧ l.length ≤ 63 ∧ ∀ b ∈ l, labelChar b = true)
+    (hlen : (joinDot labels).length ≤ 255) (hace : isInfix acePrefix (joinDot labels) = false) :
+    h.view.sni (validHost lib) = some (joinDot labels) := by
+  rw [sni_of_built (validHost lib) h _ he hw, builtSni_skip (validHost lib) pre post _ hpre]
+  simp [builtSni, validHost_of_labels lib labels hne hl hlen hace]
+
+/-- non-vacuity: `example.com` -/
+example (lib : HostLib) : validHost lib [0x65, 0x78, 0x61, 0x6d, 0x70, 0x6c, 0x65, 0x2e, 0x63, 0x6f, 0x6d] = true :=
+  validHost_of_labels lib [[0x65, 0x78, 0x61, 0x6d, 0x70, 0x6c, 0x65], [0x63, 0x6f, 0x6d]] (by simp)
+    (by intro l hm
+        simp only [List.mem_cons, List.mem_nil_iff, or_false] at hm
+        rcases hm with rfl | rfl <;> exact ⟨by simp, by decide, by decide⟩)
+    (by decide) (by decide)
+/-- the transcription is not constant, and the library is consulted exactly where the code consults it -/
+example : validHost ⟨fun _ => true, fun _ => true⟩ [0x61, 0x20, 0x62] = true ∧
+    validHost ⟨fun _ => true, fun _ => false⟩ [0x61, 0x20, 0x62] = false ∧
+    validHost ⟨fun _ => false, fun _ => false⟩ [0x61, 0x0a] = true ∧
+    validHost ⟨fun _ => false, fun _ => true⟩ [0x78, 0x6e, 0x2d, 0x2d, 0x61] = false := by decide
 
 
 /-! ## DTLS handshake fragmentation (finding F-C13a) -/
